@@ -61,4 +61,10 @@ def propNames (ps : List J5V.Compile.Property) : List Str := ps.map (·.name)
 def entityQueryBase (pkg : Str) (e : J5V.Compile.Entity) : Str :=
   b!"/" ++ J5V.Compile.Entity.baseUrlPath pkg e ++ b!"/q"
 
+/-- `protodesc.NewFiles` (building the source image's registry in `structure.APIFromImage`) refuses a
+message whose oneof has no member: "message oneof … must contain at least one field declaration".
+The event oneof of an entity has one member per declared event. -/
+def eventOneofValid (e : J5V.Compile.Entity) : Bool :=
+  !(J5V.Compile.Entity.eventOneof e).props.isEmpty
+
 end J5V.Pipe
